@@ -2,11 +2,13 @@
 """importseed.py <ID>: copy /tmp/adv_<ID>_out/{patch,demo,meta}{1,2} into /verif/seeded/<ID>-{1,2}/"""
 import json, os, re, shutil, sys, glob
 pid = sys.argv[1]
-src = '/tmp/adv_%s_out' % pid
-for i in (1, 2):
+rnd = sys.argv[2] if len(sys.argv) > 2 else ''
+src = '/tmp/adv%s_%s_out' % (rnd, pid)
+off = 2 * (int(rnd) - 1) if rnd else 0
+for i in (1, 2, 3):
     pf = '%s/patch%d.diff' % (src, i)
     if not os.path.exists(pf): continue
-    dst = '/verif/seeded/%s-%d' % (pid, i)
+    dst = '/verif/seeded/%s-%d' % (pid, i + off)
     os.makedirs(dst, exist_ok=True)
     shutil.copy(pf, dst + '/patch.diff')
     meta = {}
@@ -17,7 +19,7 @@ for i in (1, 2):
         if os.path.isdir(cand): continue
         demo = cand
     out = {"property": pid, "summary": meta.get("summary", ""), "needs": meta.get("needs", ""),
-           "demo_pkg_dir": (meta.get("demo_pkg_dir") or "").replace('/tmp/adv_%s/' % pid, '').strip('./') or "",
+           "demo_pkg_dir": (meta.get("demo_pkg_dir") or "").replace('/tmp/adv%s_%s/' % (rnd, pid), '').strip('./') or "",
            "author_existing_tests_run": meta.get("existing_tests_run", ""), "author_demo_run_cmd": meta.get("demo_run_cmd", "")}
     if demo:
         shutil.copy(demo, dst + '/demo_test.go')
